@@ -136,11 +136,13 @@ impl TryFrom<keys_proto::PublicKey> for RemotePublicKey {
             .map_err(|_| ParseError::UnknownKeyType(pubkey.r#type))?;
 
         match key_type {
-            keys_proto::KeyType::Ed25519 =>
-                ed25519::PublicKey::try_from_bytes(&pubkey.data).map(RemotePublicKey::Ed25519),
+            keys_proto::KeyType::Ed25519 => {
+                ed25519::PublicKey::try_from_bytes(&pubkey.data).map(RemotePublicKey::Ed25519)
+            }
             #[cfg(feature = "rsa")]
-            keys_proto::KeyType::Rsa =>
-                rsa::PublicKey::try_decode_x509(&pubkey.data).map(RemotePublicKey::Rsa),
+            keys_proto::KeyType::Rsa => {
+                rsa::PublicKey::try_decode_x509(&pubkey.data).map(RemotePublicKey::Rsa)
+            }
             _ => Err(ParseError::UnknownKeyType(key_type as i32)),
         }
     }
